@@ -39,6 +39,8 @@ impl State {
 //@use compile.fns State::context_open
 //@use compile.fns State::build_mark
 //@use compile.fns State::build_abort
+//@use compile.fns State::build1
+//@use compile.fns State::clear_last_error
 //@use compile.fns State::build0
 //@use compile.fns State::intern_source
 //@use state.fns State::load_value_opcode assumed
@@ -96,6 +98,9 @@ fn verif_read_source_file(path: &Xstr) -> Xresult1<String> { unimplemented!() }
 
 // Rext: Xerr::control_flow_error(flow) formats the open construct into a message: some Err
 #[verifier::external_body] fn verif_control_flow_error() -> (r: Xresult) ensures r is Err { unimplemented!() }
+// src/lex.rs token_location (verified in unit lex): here a function of the sources and the token
+#[verifier::external_body] fn token_location(sources: &[(Xstr, Xstr)], token: &Xsubstr) -> (r: Option<TokenLocation>)
+    ensures r == token_location_spec(sources@, *token) { unimplemented!() }
 // R13: `Xstr::from(name.as_str())` (arcstr substring -> string): opaque
 #[verifier::external_body] fn verif_xstr_of(name: &Xsubstr) -> Xstr { unimplemented!() }
 #[verifier::external_body] fn verif_lit_xstr() -> Xstr { unimplemented!() }
